@@ -193,6 +193,60 @@ def field_cases(system: str) -> list[tuple[str, str]]:
     return out
 
 
+def point_style_cases() -> list[tuple[str, str]]:
+    """the same physical points given by constructor arguments, by the named setters and by
+    set_coordinate, with several points alive at the same time: a field and its re-expressed
+    versions take the same value at the same physical point whatever way the points were built"""
+    from symplyphysics.core.fields.scalar_field import ScalarField
+    from symplyphysics.core.points.cartesian_point import CartesianPoint
+    from symplyphysics.core.points.cylinder_point import CylinderPoint
+    from symplyphysics.core.points.sphere_point import SpherePoint
+    sy = systems()
+    cart = sy["cartesian"]
+    X, Y, Z = cart.coord_system.base_scalars()
+    out = []
+    fields = {"x*y+z": X * Y + Z, "x**2+y**2+z**2": X**2 + Y**2 + Z**2, "z-2*x": Z - 2 * X}
+
+    def make(cls: Any, names: tuple, vals: tuple, style: str) -> Any:
+        if style == "ctor":
+            return cls(*vals)
+        p = cls()
+        if style == "setters":
+            for n, v in zip(names, vals):
+                setattr(p, n, v)
+        else:
+            for i in (2, 0, 1):  # any order
+                p.set_coordinate(i, vals[i])
+        return p
+
+    for fname, fx in fields.items():
+        f_cart = ScalarField.from_expression(fx, cart)
+        f_cyl = f_cart.rebase(sy["cylindrical"])
+        f_sph = f_cart.rebase(sy["spherical"])
+        for qc in CYL_POINTS[::5]:
+            p = R.position("cylindrical", qc)
+            qs = to_curv("spherical", p)
+            want = fx.subs({X: p[0], Y: p[1], Z: p[2]})
+            for style in ("ctor", "setters", "set_coordinate"):
+                # all three points exist before any field is evaluated
+                pc = make(CartesianPoint, ("x", "y", "z"), p, style)
+                pl = make(CylinderPoint, ("r", "theta", "z"), qc, style)
+                ps = make(SpherePoint, ("r", "theta", "phi"), qs, style)
+                fresh = CartesianPoint()
+                vals = {"cartesian": f_cart(pc), "cylindrical": f_cyl(pl), "spherical": f_sph(ps)}
+                for sysname, v in vals.items():
+                    out.append((f"pointstyle:{style}:{fname}:{qc}:{sysname}", "" if near(v, want) else
+                        f"field {fname} at the {sysname} point built by {style} is {sp.N(v, 10)}, "
+                        f"reference {sp.N(want, 10)}"))
+                origin = [fresh.coordinate(i) for i in range(3)]
+                out.append((f"pointstyle:{style}:{fname}:{qc}:fresh", "" if all(c == 0 for c in
+                    origin) else f"a fresh empty point has coordinates {origin}"))
+                got = [pc.coordinate(i) for i in range(3)]
+                out.append((f"pointstyle:{style}:{fname}:{qc}:readback", "" if vnear(got, p) else
+                    f"Cartesian point built by {style} reads back {short(got)}, set to {short(p)}"))
+    return out
+
+
 def refusal_cases() -> list[tuple[str, str]]:
     from symplyphysics import Vector
     from symplyphysics.core.fields.scalar_field import ScalarField
@@ -246,7 +300,7 @@ def refusal_cases() -> list[tuple[str, str]]:
 def _work(item: tuple) -> dict:
     kind, payload = item
     cases = (vector_cases(payload) if kind == "vector" else field_cases(payload) if kind == "field"
-        else refusal_cases())
+        else point_style_cases() if kind == "pointstyle" else refusal_cases())
     res: dict[str, Any] = {"n": len(cases), "keys": [k for k, _ in cases], "outcomes": {},
         "violations": [], "samples": [cases[len(cases) // 2][0]] if cases else []}
     for k, v in cases:
@@ -259,7 +313,7 @@ def _work(item: tuple) -> dict:
 
 def main(run: Run) -> int:
     items = [("vector", "cylindrical"), ("vector", "spherical"), ("field", "cylindrical"),
-        ("field", "spherical"), ("refusal", None)]
+        ("field", "spherical"), ("refusal", None), ("pointstyle", None)]
     for r in pmap(_work, rotate(items, run.seed)):
         n = r.pop("n")
         run.evaluations += n
